@@ -172,32 +172,6 @@ func c01Late(b, preempt int) {
 func VerifC01LatePass()  { c01Late(2, 2) }
 func VerifC01LatePass3() { c01Late(2, 3) }
 
-// VerifC01Step: one report step from an arbitrary counter state (inductive step).
-func VerifC01Step() {
-	rec := &vReporter{}
-	crec := &vCachedReporter{}
-	c := newCounter(crec.AllocateCounter("c", nil))
-	c.prev, c.curr = verifrt.Int64("prev"), verifrt.Int64("curr")
-	prev, curr := c.prev, c.curr
-	if verifrt.Choose("cached", 2) == 1 {
-		c.cachedReport()
-		verifrt.Assert("c01.step.cached-delivery", (len(crec.calls) == 1) == (curr != prev))
-		if len(crec.calls) == 1 {
-			verifrt.Emit("delta", crec.calls[0].i)
-			verifrt.Assert("c01.step.cached-delta", crec.calls[0].i == curr-prev)
-		}
-	} else {
-		c.report("n", nil, rec)
-		verifrt.Assert("c01.step.delivery", (len(rec.calls) == 1) == (curr != prev))
-		if len(rec.calls) == 1 {
-			verifrt.Emit("delta", rec.calls[0].i)
-			verifrt.Assert("c01.step.delta", rec.calls[0].i == curr-prev && rec.calls[0].name == "n")
-		}
-	}
-	verifrt.Assert("c01.step.prev-catches-up", c.prev == curr && c.curr == curr)
-	verifrt.Reach("c01.step.end")
-}
-
 // VerifC01ScopePass: one scope report pass visits every counter, gauge and histogram
 // bucket exactly once with the scope's name and tags (plain and cached).
 func VerifC01ScopePass() {
